@@ -377,6 +377,30 @@ type onceState struct {
 
 var onceTab sync.Map // *sync.Once -> *onceState (touched by tasks only; one at a time)
 
+// oncePoll / onceFinish touch the side table entry, which tasks of different
+// goroutines share with nothing but the (invisible) token between them: the race
+// detector must not see these accesses. The program-visible happens-before edge
+// of sync.Once is kept by the real o.Do calls below.
+//
+//go:norace
+func oncePoll(st *onceState, mine *bool) bool {
+	if st.done {
+		return true
+	}
+	if !st.running {
+		st.running = true
+		*mine = true
+		return true
+	}
+	return false
+}
+
+//go:norace
+func onceFinish(st *onceState) {
+	st.done = true
+	st.running = false
+}
+
 func OnceDo(o *sync.Once, f func()) {
 	if Cur() == nil {
 		o.Do(f)
@@ -384,22 +408,11 @@ func OnceDo(o *sync.Once, f func()) {
 	}
 	v, _ := onceTab.LoadOrStore(o, &onceState{})
 	st := v.(*onceState)
-	var mine bool
-	Block(func() bool {
-		if st.done {
-			return true
-		}
-		if !st.running {
-			st.running = true
-			mine = true
-			return true
-		}
-		return false
-	})
-	if mine {
+	mine := new(bool)
+	Block(func() bool { return oncePoll(st, mine) })
+	if *mine {
 		defer func() {
-			st.done = true
-			st.running = false
+			onceFinish(st)
 			// keep sync.Once's own happens-before edge
 			o.Do(func() {})
 		}()
